@@ -3,6 +3,7 @@ package h
 import (
 	"encoding/json"
 	"sort"
+	"strings"
 
 	"github.com/truora/minidyn/interpreter"
 	mtypes "github.com/truora/minidyn/types"
@@ -55,6 +56,10 @@ func (e *Event) readArgs() *ReadArgs {
 	}
 	if e.Esk.Some {
 		q.Esk = e.Esk.K
+	}
+	if len(e.Proj) > 0 {
+		s := strings.Join(e.Proj, ", ")
+		q.Proj = &s
 	}
 	return q
 }
